@@ -1,3 +1,3 @@
 #!/bin/sh
 # replays this counterexample against the real build
-cd /tmp/seedrepo_C09 && VERIF_SCRIPT=/verif/replays/C09/VHarnessLoadMint_33843515_0/script.json VERIF_RAW_SALT=0 GOFLAGS=-mod=mod GOPROXY=off go test -vet=off -count=1 -overlay /verif/replays/C09/VHarnessLoadMint_33843515_0/overlay.json -run ^TestVerifReplay_VHarnessLoadMint$ -v ./mint
+cd /tmp/seedrepo_C09f && VERIF_SCRIPT=/verif/replays/C09/VHarnessLoadMint_33843515_0/script.json VERIF_RAW_SALT=0 GOFLAGS=-mod=mod GOPROXY=off go test -vet=off -count=1 -overlay /verif/replays/C09/VHarnessLoadMint_33843515_0/overlay.json -run ^TestVerifReplay_VHarnessLoadMint$ -v ./mint
